@@ -4,7 +4,7 @@
 set -u
 PATCH="$(readlink -f "$1")"; TIER="${2:-quick}"
 D="$(mktemp -d /var/tmp/verif-ben-XXXXXX)"
-trap 'rm -rf "$D"; T=$(echo "$D" | md5sum | cut -c1-8); rm -f /verif/.build/simcheck.$T /verif/.build/alt.$T.mod /verif/.build/alt.$T.sum' EXIT
+trap 'rm -rf "$D"; T=$(echo "$D" | md5sum | cut -c1-8); rm -f /verif/.build/simcheck.$T /verif/.build/alt.$T.mod /verif/.build/alt.$T.sum /verif/.build/simcheck-y.$T /verif/.build/y.$T.mod /verif/.build/y.$T.sum /verif/.build/y.$T.lock' EXIT
 rsync -a --exclude .git /repo/ "$D/"
 (cd "$D" && patch -p1 -s < "$PATCH") || { echo "BENIGN $1 patch-failed"; exit 3; }
 export GOFLAGS=-mod=mod GOPROXY=off GOSUMDB=off GOTOOLCHAIN=local
